@@ -63,8 +63,12 @@ def hook(put):
           r"nni_id_set\(&ep->pipes, id, p\)\) == NNG_OK\) \{\s*(p->key = id;\s*)?ep->peer_count\+\+;", ap,
           "udp_add_pipe: first free key from the hash")
     rm = X.strip_comments(X.func_body(udps, "udp_remove_pipe"))
-    fixed = re.search(r"uint64_t key = p->key;\s*if \(p->id == 0\) \{\s*return;\s*\}\s*p->id = 0;.*?ep->peer_count--;\s*"
-                      r"if \(nni_id_get\(&ep->pipes, key\) == p\) \{\s*nni_id_remove\(&ep->pipes, key\);\s*udp_close_gap\(ep, key\);\s*\}", rm, re.S)
+    # the count is taken down either before the test (C11T fix) or inside it (UDPALLOC-udp-peer-count-unstored-pipe: a pipe that
+    # udp_add_pipe could not store was never counted); the same thing for every pipe the model knows (the model stores every pipe)
+    fixed = re.search(r"uint64_t key = p->key;\s*if \(p->id == 0\) \{\s*return;\s*\}\s*p->id = 0;\s*(?:"
+                      r"NNI_ASSERT\(ep->peer_count != 0\);\s*ep->peer_count--;\s*if \(nni_id_get\(&ep->pipes, key\) == p\) \{\s*|"
+                      r"if \(nni_id_get\(&ep->pipes, key\) == p\) \{\s*NNI_ASSERT\(ep->peer_count != 0\);\s*ep->peer_count--;\s*)"
+                      r"nni_id_remove\(&ep->pipes, key\);\s*udp_close_gap\(ep, key\);\s*\}", rm, re.S)
     pinned = re.search(r"uint64_t id = p->id;\s*if \(id == 0\) \{\s*return;\s*\}\s*p->id = 0;.*?ep->peer_count--;\s*for \(;;\) \{\s*udp_pipe \*srch;\s*"
                        r"if \(\(srch = nni_id_get\(&ep->pipes, id\)\) == NULL\) \{\s*break;\s*\}\s*if \(srch == p\) \{\s*nni_id_remove\(&ep->pipes, id\);\s*break;\s*\}\s*"
                        r"id\+\+;", rm, re.S)
